@@ -363,6 +363,31 @@ class A:
         return out
 
 
+def _walk(t):
+    yield t
+    if isinstance(t, (tuple, list)):
+        for x in t:
+            for y in _walk(x):
+                yield y
+
+
+def infer_sigs(fns):
+    with_arg = set()
+    for _n, body in fns:
+        for t in _walk(body):
+            if isinstance(t, tuple) and len(t) == 3 and t[0] == "ECall" and t[2] != "None":
+                with_arg.add(int(t[1]))
+    sigs = []
+    for i, (_n, body) in enumerate(fns):
+        if i not in with_arg:
+            sigs.append("NoParam")
+        elif any(isinstance(t, tuple) and len(t) == 3 and t[0] == "PStartNodeAt" and t[1] == "0" for t in _walk(body)):
+            sigs.append("CpParam")
+        else:
+            sigs.append("BoolParam")
+    return sigs
+
+
 def generate(gen_text, tks, bang, cond):
     fns, recover, entry = read_program(gen_text, tks, bang, cond)
     a = A(tks, bang, cond, fns, recover)
@@ -371,7 +396,7 @@ def generate(gen_text, tks, bang, cond):
     problems = a.check(entry)
     o = ["(* GENERATED by tools/cert_grammar.py (untrusted; re-checked by chk_all in Coq) -- do not edit *)",
          "From Coq Require Import List NArith.",
-         "From TG.Proofs Require Import LookProg.",
+         "From TG.Proofs Require Import LookProg BldAn.",
          "Import ListNotations.", "",
          "Definition grammar_cert : cert :=", "  ["]
     rows = []
@@ -381,6 +406,9 @@ def generate(gen_text, tks, bang, cond):
     o.append(";\n".join(rows))
     o.append("  ].")
     o.append("")
+    # A-bld: kind of parameter of every function (inferred from the call sites and the callee body; untrusted)
+    sigs = infer_sigs(fns)
+    o.append("Definition grammar_sigs : list fsig :=\n  [ %s ].\n" % "; ".join(sigs))
     tkn = list(tks)
     for (fn, k, w) in problems[:40]:
         o.append("(* generator: expected check failure: %s at %s: %s *)" % (fn, tkn[k] if k >= 0 else "-", w))
